@@ -92,6 +92,13 @@ def run(res, tier, only_case=None):
             if pt != l["ht"]:
                 pd = (dg + bytes(64))[:zckfmt.DSIZE[pt]]
                 extra.append((tag + ":pin-type%d" % pt, f, "O %d %s - %s" % (pt, pd.hex(), vlib.hexs(f))))
+    # a pinned header length that does not match (the error path frees what the lead had allocated; the context is freed next)
+    for tag, f in files[:: max(1, len(files) // (40 if tier == "quick" else 400))]:
+        l = zckfmt.parse_lead(f)
+        if l is None:
+            continue
+        for dlt in (1, -1):
+            extra.append((tag + ":pin-size%+d" % dlt, f, "O - - %d %s" % (l["lead"] + l["hlen"] + dlt, vlib.hexs(f))))
     files = files + [(t, f) for t, f, _ in extra]
     lines = lines + [x[2] for x in extra]
     mo, _ = vlib.run_cases(model, lines, wd, "model")
@@ -160,6 +167,19 @@ def run(res, tier, only_case=None):
             hdr_len = len(tgt) - sum(len(c) for c in chunks)
             for ops in ("k,v,r4096", "h,k,m0"):
                 cases.append(("src-cht%d-tgt-cht%d" % (sc, tc), "F %s %s %s" % (vlib.hexs(tgt[:hdr_len] + bytes(len(tgt) - hdr_len)), vlib.hexs(srcf), ops)))
+    run_batch(cases)
+    # pairings across files that differ in compression type and in the uncompressed-source flag (one side only, both, none)
+    cases = []
+    zs = [b for b in base if zckfmt.parse_file(b[0]) and zckfmt.parse_file(b[0])[0].comp == 2 and len(b[0]) < 200000][:6]
+    ns = []
+    for fl in (0, 4):
+        for _ in range(2):
+            chunks = [rng.rbytes(rng.choice([10, 300, 5000])) for _ in range(rng.randrange(1, 5))]
+            ns.append(zckfmt.build_file(chunks, ht=1, cht=3 if fl == 0 else 1, flags=fl)[0])
+    for z in zs:
+        for nf in ns:
+            cases.append(("pair-cross", "F %s %s %s" % (vlib.hexs(z[0]), vlib.hexs(nf), "h,x,h,k,v")))
+            cases.append(("pair-cross", "F %s %s %s" % (vlib.hexs(nf), vlib.hexs(z[0]), "h,x,m0,k")))
     run_batch(cases)
     # ---- (3) command line tools
     tools = {t: vlib.ensure_tool(t, "asan") for t in ("unzck", "zck_read_header", "zck_delta_size", "zck_gen_zdict")}
